@@ -152,6 +152,7 @@ func internalPoint(p string) bool {
 func runLM(c *LMCase, ch sched.Chooser) (*lmRun, string) {
 	r := &lmRun{lm: gcsutil.NewTransientLockMap(), s: sched.New(), inCS: map[string]int{}, held: map[string]int{}, active: map[int]string{}, lastKeyActor: map[string]int{}}
 	r.s.DetectBlocking = true
+	r.s.ChanWaitIsLock = true
 	for i := 0; i < c.NCtx; i++ {
 		ctx, cancel := context.WithCancel(context.Background())
 		r.ctxs = append(r.ctxs, ctx)
